@@ -9,7 +9,7 @@ RULE = ("at states sampled along real mixed histories: 35 kinds of structurally 
         "byte, garbage system transactions, empty and random typed request lists of plausible and implausible sizes, missing base fee, wrong "
         "field sizes) as first and as later transaction, byte-level mutants (truncated, extended, bit-flipped, random) of well-formed "
         "transactions, and random proposals, plus membership request lists of every shape (unknown, duplicated, the proposer, everybody) and the "
-        "relayer-membership histories of C16 (a FinalizeBlock failure in any of them is a `halt`); each malformed input goes through CheckTx, ProcessProposal and FinalizeBlock of the real app; distinct = "
+        "relayer-membership histories of C16 and heavy-load bridge / locking histories with backlogs beyond every per-block cap (a FinalizeBlock failure or a dead node in any of them is a violation); each malformed input goes through CheckTx, ProcessProposal and FinalizeBlock of the real app; distinct = "
         "distinct (entry point, mutation kind, outcome) triples")
 
 
@@ -50,6 +50,17 @@ def run(tier, seed, work):
                                    "-period", 3, "-accept-timeout", (2, 0)[j % 2]]) for j in range(4)]
     rel_paths = verif.run_drivers(binary, rel_jobs, work)
     paths += [rel_paths[n] for n, _ in rel_jobs]
+    # well-formed but HEAVY input: bridge and locking histories whose backlogs exceed every per-block cap (more than 8 deposits, paid
+    # and refunded withdrawals, more than 16 unlocks and claims due at once); a node that dies or a block that cannot be processed
+    # under such load is a violation here as well (the verdicts of these histories belong to C03 / C05 / C06 / C11 ...)
+    from checks import bridge_common as bc, locking_common as lc
+    heavy = bc.jobs("c19brburst", seed + 11, 3 if quick else 15, 40, 4 if quick else 8, mode="burst") + lc.jobs("c19lkburst", seed + 12, 3 if quick else 15, 30, 2 if quick else 4, 1, "burst")
+    try:
+        hp = verif.run_drivers(binary, heavy, work)
+        paths += [hp[n] for n, _ in heavy]
+    except verif.AppCrash as ac:
+        for name, path, err in ac.crashes:
+            crashed.append((name, path, err))
     trace = verif.concat([p for p in paths if os.path.exists(p)], os.path.join(work, "robust.ndjson"))
     rc = verif.finish_trace_check("C19", tier, seed, work, trace, ("Trace_Robust.tla", "Trace_Robust.cfg"), key, "exploration",
                                   [], RULE, states=0, transitions=0, t0=t0, boundary=lambda l: '"ev":"init"' in l, ntraces=sum(1 for l in open(trace) if '"ev":"init"' in l),
@@ -75,11 +86,11 @@ def run(tier, seed, work):
                          "panics inside transaction execution are recovered by baseapp (observed, counted as rejections); a panic that escapes kills the "
                          "driver process and is reported from the input journal"]
     for j, path, se in crashed:
-        d = verif.save_replay("C19", seed, None, extra_files=[path, path + ".journal"])
+        d = verif.save_replay("C19", seed, None, extra_files=[p for p in (path, path + ".journal") if os.path.exists(p)])
         with open(os.path.join(d, "crash.txt"), "w") as f:
             f.write(se[-20000:])
         print("VIOLATION property=C19 replay=%s" % d)
-        print("  the node process died while handling a malformed input (last journal entry is the input):\n" + se[-1500:])
+        print("  the node process died (robust driver: the last journal entry is the malformed input; heavy-load histories: the trace so far):\n" + se[-1500:])
         ev["violations"] = ev.get("violations", 0) + 1
         rc = verif.EXIT_VIOLATION
     json.dump(ev, open(evp, "w"), indent=1, sort_keys=True)
